@@ -236,6 +236,23 @@ def step (s : State) (toks : List String) : State × String :=
           | .panic => "panic"
           | .hang => "hang")
     | _, _, _ => (s, "bad-op")
+  -- `lt.bigtree <nodes> <servers> <bf>`: LocalTest.GenBigTree (local.go:205-223): `servers` fresh
+  -- local servers (all on one host), roster in creation order, GenerateBigNaryTree(bf, nodes)
+  | ["lt.bigtree", nodes, servers, bf] =>
+    match nodes.toNat?, servers.toNat?, bf.toNat? with
+    | some nodes, some servers, some bf =>
+      if servers = 0 then (s, "bad-op") else
+      (s, match genBig { N := bf, nodes := nodes, hosts := List.replicate servers 0 } with
+          | .tree lv => showTree (flatten lv)
+          | .noTree => "none"
+          | .panic => "panic"
+          | .hang => "hang")
+    | _, _, _ => (s, "bad-op")
+  -- `lt.tree <n>`: LocalTest.GenTree (local.go:190-203): n fresh servers, GenerateBinaryTree
+  | ["lt.tree", n] =>
+    match n.toNat? with
+    | some n => if n = 0 then (s, "bad-op") else (s, showOutcome (genBinary n))
+    | none => (s, "bad-op")
   | _ => (s, "bad-op")
 
 end Drv
